@@ -1012,6 +1012,7 @@ pub struct ObjFiber {
     pub(crate) open_upvalues: Option<Gc<RefCell<ObjUpvalue>>>,
     pub(crate) call_arity: usize,
     pub(crate) return_value: Value,
+    pub(crate) pending_exception: Value,
     pub(crate) exc_handlers: Vec<ExcHandler>,
     pub(crate) return_ip: Option<*const u8>,
     pub(crate) error_ip: Option<*const u8>,
@@ -1036,6 +1037,7 @@ impl ObjFiber {
             open_upvalues: None,
             call_arity: arity as usize,
             return_value: Value::None,
+            pending_exception: Value::None,
             exc_handlers: Vec::new(),
             return_ip: None,
             error_ip: None,
@@ -1165,6 +1167,7 @@ impl GcManaged for ObjFiber {
             caller.mark();
         }
         self.return_value.mark();
+        self.pending_exception.mark();
     }
 
     fn blacken(&self) {
@@ -1177,6 +1180,7 @@ impl GcManaged for ObjFiber {
             caller.blacken();
         }
         self.return_value.blacken();
+        self.pending_exception.blacken();
     }
 }
 
